@@ -290,6 +290,30 @@ func runCase(r *evid.Run, dir string, cs int64, idx int) {
 	}
 	openDone := make(chan error, 1)
 	go func() { openDone <- h.Open(c.W, c.unlocked) }()
+	// waitOpen waits for the pending Open.  Decided on logical steps, not time:
+	// one synchronisation attempt asks the backend for its best block a handful
+	// of times; thousands of such calls mean the wallet is failing and retrying
+	// the sync over and over.  The wall-clock deadline only yields inconclusive.
+	waitOpen := func() (error, bool) {
+		deadline := time.After(300 * time.Second)
+		for {
+			select {
+			case e := <-openDone:
+				return e, true
+			case <-time.After(50 * time.Millisecond):
+				if n := ch.BestCalls(); n > 2000 {
+					errLines := logTail()
+					r.Violation("c16:recovery-never-completes", fmt.Sprintf("%s: the wallet keeps failing to synchronise and retrying (%d GetBestBlock calls so far); recent errors in this process: %s", desc, n, errLines), "recovery", cs, map[string]any{"case": desc, "chain": plog, "errors": errLines})
+					h.Abandon()
+					return nil, false
+				}
+			case <-deadline:
+				r.Inconclusive("recovery watchdog (300 s): " + desc)
+				h.Abandon()
+				return nil, false
+			}
+		}
+	}
 	if c.restartOn {
 		// once the injected failure happened, stop the wallet and reopen it:
 		// the recovery must resume from what was persisted
@@ -303,34 +327,17 @@ func runCase(r *evid.Run, dir string, cs int64, idx int) {
 			}
 		}
 		if atomic.LoadInt32(&failed) == 1 {
-			<-openDoneOrSynced(openDone, h)
+			if _, ok := waitOpen(); !ok {
+				return
+			}
 			h.Stop()
 			r.Hit("recoveries-stopped-and-resumed", 1)
 			go func() { openDone <- h.Open(c.W, c.unlocked) }()
 		}
 	}
-	var err2 error
-	deadline := time.After(300 * time.Second)
-wait:
-	for {
-		select {
-		case err2 = <-openDone:
-			break wait
-		case <-time.After(50 * time.Millisecond):
-			// decided on logical steps, not time: one synchronisation attempt asks the
-			// backend for its best block a handful of times; thousands of such calls
-			// mean the wallet is failing and retrying the sync over and over
-			if n := ch.BestCalls(); n > 2000 {
-				errLines := logTail()
-				r.Violation("c16:recovery-never-completes", fmt.Sprintf("%s: the wallet keeps failing to synchronise and retrying (%d GetBestBlock calls so far); recent errors in this process: %s", desc, n, errLines), "recovery", cs, map[string]any{"case": desc, "chain": plog, "errors": errLines})
-				h.Chain.Shutdown()
-				return
-			}
-		case <-deadline:
-			r.Inconclusive("recovery watchdog (300 s): " + desc)
-			h.Chain.Shutdown()
-			return
-		}
+	err2, ok := waitOpen()
+	if !ok {
+		return
 	}
 	if err := err2; err != nil {
 		if errors.Is(err, wh.ErrNotSynced) {
@@ -505,14 +512,6 @@ wait:
 	if r.WantSample() && len(plog) > 3 && len(plog) < 25 {
 		r.Sample(map[string]any{"case": desc, "chain": plog})
 	}
-}
-
-// openDoneOrSynced waits until the pending Open returned (it keeps retrying
-// after the injected error, so it normally returns once synced).
-func openDoneOrSynced(done chan error, h *wh.H) chan struct{} {
-	c := make(chan struct{})
-	go func() { <-done; close(c) }()
-	return c
 }
 
 // lookahead checks the horizon protocol of wallet.BranchRecoveryState with
